@@ -152,7 +152,7 @@ class Worker:
         try:
             self.errf.flush()
             data = open(self.err, errors="replace").read()
-            return data[-n:]
+            return crash_excerpt(data, n)
         except Exception:
             return ""
 
@@ -162,6 +162,13 @@ class Worker:
         except Exception:
             pass
         self.proc.wait()
+
+def crash_excerpt(data, n=6000):
+    """the part of a worker's stderr that starts at the Go crash banner (or its tail when there is none)"""
+    m = re.search(r"^(fatal error: |panic: |runtime: goroutine stack exceeds)", data, re.M)
+    if m:
+        return data[m.start():m.start() + n]
+    return data[-n:]
 
 def banner_site(stderr):
     """kind and top honeytrap frame of a Go crash banner"""
@@ -180,8 +187,12 @@ def banner_site(stderr):
     if "stack exceeds" in stderr and kind == "process-died":
         kind = "fatal:stack-overflow"
     site = ""
-    for m in re.finditer(r"^(github\.com/honeytrap/honeytrap/[^\s(]+)\(", stderr, re.M):
+    for m in re.finditer(r"^(github\.com/honeytrap/honeytrap/\S+?)\(", stderr, re.M):
         site = m.group(1).replace("github.com/honeytrap/honeytrap/", "")
+        fm = re.match(r"^(github\.com/honeytrap/honeytrap/\S+)\(", stderr[m.start():], re.M)
+        if fm:
+            site = fm.group(1).replace("github.com/honeytrap/honeytrap/", "")
+        site = re.sub(r"\.func\d+(\.\d+)*$", "", site)
         break
     if not site:
         m = re.search(r"(/repo/[^\s:]+:\d+)", stderr)
@@ -204,7 +215,7 @@ def run_single(prop, scenario, tier="quick", binpath=None, timeout=None, extra_e
         try:
             r = subprocess.run([binpath, "-test.run", "^TestWorker$", "-test.timeout", "0"], env=env, cwd=d,
                                stdout=subprocess.DEVNULL, stderr=subprocess.PIPE, timeout=timeout)
-            stderr = r.stderr.decode(errors="replace")
+            stderr = crash_excerpt(r.stderr.decode(errors="replace"))
             rc = r.returncode
         except subprocess.TimeoutExpired as e:
             stderr = (e.stderr or b"").decode(errors="replace")
@@ -220,7 +231,7 @@ def run_single(prop, scenario, tier="quick", binpath=None, timeout=None, extra_e
                     res = x
         if res is None:
             kind, site, _ = banner_site(stderr)
-            return {"verdict": "violation", "kind": kind, "site": site or props.site_of(scenario), "detail": stderr[-2500:], "died": True, "rc": rc}
+            return {"verdict": "violation", "kind": kind, "site": site or props.site_of(scenario), "detail": stderr[:2500], "died": True, "rc": rc}
         return res
     finally:
         shutil.rmtree(d, ignore_errors=True)
@@ -537,7 +548,7 @@ def main():
             kind, site, _ = banner_site(text)
         else:
             kind, site = why, props.site_of(sc)
-        res = {"verdict": "violation", "kind": kind, "site": site or props.site_of(sc), "detail": text[-2500:], "seed": sd, "idx": idx, "class": sc.get("class")}
+        res = {"verdict": "violation", "kind": kind, "site": site or props.site_of(sc), "detail": text[:2500], "seed": sd, "idx": idx, "class": sc.get("class")}
         if why == "hang":
             infra("worker hung without using CPU at %s idx=%s seed=%s: %s" % (prop, idx, sd, text[-800:]))
         e = match_known(known, res, sc)
@@ -547,6 +558,7 @@ def main():
         add_cand(res, sc, race=(w.wid >= 100))
 
     reported = []
+    done_fps = set()
     for fp, (res, sc, race) in sorted(cands.items()):
         binp = RACE_BIN if race else BIN
         xenv = {"VERIF_RACE": "1"} if race else None
@@ -561,6 +573,9 @@ def main():
                 res = again
             else:
                 infra("candidate violation did not reproduce in a fresh process: property=%s kind=%s site=%s seed=%s idx=%s\n%s" % (prop, res.get("kind"), res.get("site"), res.get("seed"), res.get("idx"), (res.get("detail") or "")[:1500]))
+        if fp in done_fps:
+            continue
+        done_fps.add(fp)
         small, spent = minimise(prop, sc, fp, budget=cfg.get("min_budget", 100), binpath=binp, extra_env=xenv)
         final = run_single(prop, small, tier, binpath=binp, extra_env=xenv)
         if final.get("verdict") != "violation" or fingerprint(final) != fp:
